@@ -350,9 +350,12 @@ Qed.
 Lemma lex_header s : fst (lex s) = THeader -> firstn 8 s = header_prefix.
 Proof. unfold lex. apply lex_loop_header; [reflexivity|]. intros [?|?]; discriminate. Qed.
 
+Lemma header_prefix_encoded : utf8_encode header_prefix = header_prefix.
+Proof. reflexivity. Qed.
+
 Lemma parse_loop_sound fuel : forall s acc p,
   parse_loop fuel s acc = Ok p ->
-  concat (map item_src p) = concat (map item_src (rev acc)) ++ s.
+  concat (map item_src p) = concat (map item_src (rev acc)) ++ utf8_encode s.
 Proof.
   induction fuel as [|f IH]; intros s acc p H.
   - destruct s; [|discriminate]. cbn in H. inversion H. now rewrite app_nil_r.
@@ -364,27 +367,143 @@ Proof.
     unfold lg_upto, lg_from in H.
     replace (Nat.leb n (length s)) with true in H by (symmetry; apply Nat.leb_le; lia).
     cbn [bind] in H.
-    assert (Hcat : forall it, item_src it = firstn n s ->
-              concat (map item_src (rev (it :: acc))) ++ skipn n s = concat (map item_src (rev acc)) ++ s).
+    assert (Hcat : forall it, item_src it = utf8_encode (firstn n s) ->
+              concat (map item_src (rev (it :: acc))) ++ utf8_encode (skipn n s)
+              = concat (map item_src (rev acc)) ++ utf8_encode s).
     { intros it Hit. cbn [rev]. rewrite map_app, concat_app. cbn [map concat]. rewrite Hit, app_nil_r.
-      rewrite <- app_assoc, firstn_skipn. reflexivity. }
+      rewrite <- app_assoc, <- encode_app, firstn_skipn. reflexivity. }
     destruct typ.
     + apply IH in H. rewrite H. now apply Hcat.
-    + destruct (field_of (firstn n s)) as [fl|] eqn:Ef; [|discriminate].
+    + destruct (field_of (utf8_encode (firstn n s))) as [fl|] eqn:Ef; [|discriminate].
       apply IH in H. rewrite H. apply Hcat. cbn [item_src]. now apply field_of_name.
     + specialize (Hh eq_refl). specialize (Hp eq_refl).
-      replace (Nat.leb 8 (length (firstn n s))) with true in H
-        by (symmetry; apply Nat.leb_le; rewrite firstn_length; lia).
+      (* the item starts with the eight ASCII characters "$header." *)
+      assert (Hv : utf8_encode (firstn n s) = header_prefix ++ utf8_encode (skipn 8 (firstn n s))).
+      { rewrite <- (firstn_skipn 8 (firstn n s)) at 1. rewrite encode_app. f_equal.
+        rewrite firstn_firstn. replace (Init.Nat.min 8 n) with 8%nat by lia.
+        rewrite Hp. apply header_prefix_encoded. }
+      rewrite Hv in H.
+      replace (Nat.leb 8 (length (header_prefix ++ utf8_encode (skipn 8 (firstn n s))))) with true in H
+        by (symmetry; apply Nat.leb_le; rewrite app_length; cbn; lia).
       cbn [bind] in H. apply IH in H. rewrite H. apply Hcat. cbn [item_src].
-      rewrite <- (firstn_skipn 8 (firstn n s)) at 2. f_equal.
-      rewrite firstn_firstn. replace (Init.Nat.min 8 n) with 8%nat by lia. now rewrite Hp.
+      rewrite Hv. reflexivity.
 Qed.
 
+(* what string([]rune(format)) is: the format itself when it is ASCII or, more generally,
+   well-formed UTF-8 (see utf8_roundtrip below); an ill-formed byte becomes U+FFFD *)
+Definition go_string_of_runes (format : str) : str := utf8_encode (utf8_decode format).
+
 (* a format that logger.New accepts is spelled by its pattern: the source texts of the
-   items (literal text, "$header." ++ name, the field's name) concatenate to the format *)
-Theorem new_logger_sound format p : new_logger format = Ok p -> concat (map item_src p) = format.
+   items (literal text, "$header." ++ name, the field's name) concatenate to the format
+   as Go sees it after []rune and back - for every byte string *)
+Theorem new_logger_sound format p :
+  new_logger format = Ok p -> concat (map item_src p) = go_string_of_runes format.
 Proof.
-  unfold new_logger, parse. destruct (parse_loop (length format) format []) as [q| |] eqn:E; cbn [bind]; try discriminate.
+  unfold new_logger, parse. cbv zeta.
+  destruct (parse_loop (length (utf8_decode format)) (utf8_decode format) []) as [q| |] eqn:E; cbn [bind]; try discriminate.
   intros H. assert (q = p) by (destruct q; [discriminate | now inversion H]). subst q.
   now apply parse_loop_sound in E.
+Qed.
+
+(* ---------------- []rune(string(runes)) = runes: well-formed UTF-8 survives ---------------- *)
+(* Unicode scalar values: what a Go string can hold as a valid rune *)
+Definition scalar (r : N) : Prop := r < 55296 \/ (57343 < r /\ r <= 1114111).
+
+Lemma decode_fuel_enough f1 : forall f2 s, (length s <= f1)%nat -> (length s <= f2)%nat ->
+  utf8_decode_fuel f1 s = utf8_decode_fuel f2 s.
+Proof.
+  induction f1 as [|f1 IH]; intros f2 s H1 H2.
+  - destruct s; [|cbn in H1; lia]. destruct f2; reflexivity.
+  - destruct s as [|b0 t]; [destruct f2; reflexivity|].
+    destruct f2 as [|f2]; [cbn in H2; lia|]. cbn [utf8_decode_fuel length] in *.
+    destruct (decode1 b0 t) as [r w]. f_equal.
+    pose proof (skipn_length (w - 1) t). apply IH; lia.
+Qed.
+
+Section Utf8Arith.
+Local Ltac Zify.zify_post_hook ::= Z.div_mod_to_equations.
+Local Ltac dstep :=
+  match goal with
+  | |- context [N.ltb ?a ?b] => destruct (N.ltb_spec a b); try (exfalso; lia)
+  | |- context [N.leb ?a ?b] => destruct (N.leb_spec a b); try (exfalso; lia)
+  | |- context [N.eqb ?a ?b] => destruct (N.eqb_spec a b); try (exfalso; lia)
+  end; cbn [andb orb negb].
+
+Lemma decode1_encode r rest : scalar r ->
+  exists b0 tl, encode_rune r = b0 :: tl /\ decode1 b0 (tl ++ rest) = (r, S (length tl)).
+Proof.
+  intros Hs. unfold scalar in Hs. unfold encode_rune.
+  destruct (N.ltb_spec r 128).
+  { eexists _, _. split; [reflexivity|]. unfold decode1. cbn [app length]. dstep. reflexivity. }
+  destruct (N.ltb_spec r 2048).
+  { eexists _, _. split; [reflexivity|]. unfold decode1, is_cont. cbn [app length].
+    repeat dstep. f_equal. lia. }
+  destruct (N.leb_spec 55296 r); destruct (N.leb_spec r 57343); destruct (N.ltb_spec 1114111 r);
+    cbn [andb orb]; try (exfalso; lia);
+    (destruct (N.ltb_spec r 65536);
+     [ eexists _, _; split; [reflexivity|]; unfold decode1, is_cont; cbn [app length]; cbv zeta;
+       repeat dstep; f_equal; lia
+     | eexists _, _; split; [reflexivity|]; unfold decode1, is_cont; cbn [app length]; cbv zeta;
+       repeat dstep; f_equal; lia ]).
+Qed.
+End Utf8Arith.
+
+Theorem utf8_roundtrip rs : Forall scalar rs -> utf8_decode (utf8_encode rs) = rs.
+Proof.
+  induction 1 as [|r rs Hr _ IH]; [reflexivity|].
+  unfold utf8_decode, utf8_encode in *. cbn [flat_map].
+  destruct (decode1_encode r (flat_map encode_rune rs) Hr) as (b0 & tl & He & Hd).
+  rewrite He. cbn [app length utf8_decode_fuel]. rewrite Hd. f_equal.
+  replace (S (length tl) - 1)%nat with (length tl) by lia.
+  rewrite skipn_app, skipn_all, Nat.sub_diag. cbn [skipn app].
+  rewrite <- IH at 2. apply decode_fuel_enough; rewrite ?app_length; lia.
+Qed.
+
+(* so a format that is well-formed UTF-8 (the encoding of some sequence of scalar values:
+   letters, digits, CJK, combining marks, emoji ...) is unchanged by []rune and back, and the
+   parsed pattern spells exactly the format string *)
+Corollary new_logger_sound_utf8 rs p :
+  Forall scalar rs -> new_logger (utf8_encode rs) = Ok p ->
+  concat (map item_src p) = utf8_encode rs.
+Proof.
+  intros Hs H. rewrite (new_logger_sound _ _ H). unfold go_string_of_runes. now rewrite utf8_roundtrip.
+Qed.
+
+Example utf8_examples :
+  utf8_decode (utf8_encode [36; 29366; 24577; 58; 128512; 769; 1635]) = [36; 29366; 24577; 58; 128512; 769; 1635] /\
+  utf8_decode [255; 237; 160; 128; 192; 175] = [65533; 65533; 65533; 65533; 65533; 65533] /\
+  utf8_encode [65533] = [239; 191; 189].
+Proof. repeat split; vm_compute; reflexivity. Qed.
+
+(* ---------------- proxy.responseWriter: what reaches the event ---------------- *)
+Lemma rw_run_app a b : rw_run (a ++ b) = fold_left rw_step b (rw_run a).
+Proof. unfold rw_run. apply fold_left_app. Qed.
+
+Lemma rw_writes st ws : (forall c, In c ws -> exists n, c = RwWrite n) ->
+  fst (fold_left rw_step ws st) = fst st.
+Proof.
+  revert st. induction ws as [|c ws IH]; intros st H; [reflexivity|].
+  cbn [fold_left]. rewrite IH by (intros c' I; apply H; now right).
+  destruct (H c (or_introl eq_refl)) as [n ->]. reflexivity.
+Qed.
+
+(* informational responses, then the final status, then the body: the logged status is the
+   final one (not the first WriteHeader), the logged size the sum of the body writes *)
+Theorem rw_code_is_final infos final ws :
+  (forall c, In c ws -> exists n, c = RwWrite n) ->
+  fst (rw_run (map RwHeader infos ++ [RwHeader final] ++ ws)) = final /\
+  snd (rw_run (map RwHeader infos ++ [RwHeader final] ++ ws)) =
+    fold_left (fun a c => match c with RwWrite n => (a + n)%Z | RwHeader _ => a end) ws 0%Z.
+Proof.
+  intros Hw. rewrite !rw_run_app.
+  assert (Hi : forall l st, snd (fold_left rw_step (map RwHeader l) st) = snd st).
+  { induction l as [|k l IH]; intros st; [reflexivity|]. cbn [map fold_left]. now rewrite IH. }
+  split.
+  - rewrite rw_writes by exact Hw. reflexivity.
+  - cbn [fold_left rw_step]. pose proof (Hi infos (0, 0)%Z) as Hs. cbn [snd] in Hs.
+    generalize dependent (fold_left rw_step (map RwHeader infos) (0, 0)%Z). intros st Hs.
+    destruct st as [c0 s0]. cbn [snd fst] in *. subst s0.
+    clear Hw Hi. generalize 0%Z at 1 3. revert final.
+    induction ws as [|c ws IH]; intros final z; [reflexivity|].
+    cbn [fold_left]. destruct c as [k|n]; cbn [rw_step fst snd]; apply IH.
 Qed.
